@@ -8,6 +8,7 @@ error, not a silent drop.  Everything NumPy computes in C on floats is outside."
 
 from __future__ import annotations
 
+import operator
 import random
 from fractions import Fraction
 
@@ -280,6 +281,7 @@ DIMLESS_FUNCS = {
     "cumprod": (lambda A, b: np.cumprod(A), "q"),
     "method-cumprod": (lambda A, b: A.cumprod(), "q"),
     "prod": (lambda A, b: np.prod(A), "q"),
+    "prod-axis": (lambda A, b: np.prod(np.stack([A, A]), axis=0), "q"),
     "mod-bare": (lambda A, b: np.mod(A, b), "q"),
     "operator-mod-bare": (lambda A, b: A % b, "q"),
     "floor_divide-bare": (lambda A, b: np.floor_divide(A, b), "q"),
@@ -384,6 +386,23 @@ def h_float_routing(eng):
     P(list(np.unwrap(Qy(np.array([0.0, 360.0]), "degree")).to("degree").magnitude) == [0.0, 0.0], "unwrap:degrees")
     r = np.sin(Qy(np.array([90.0]), "degree"))
     P(abs(getattr(r, "magnitude", r)[0] - 1.0) < 1e-15 and (not hasattr(r, "_units") or not r.to_root_units()._units), "sin:degree-converted-to-radian")
+    # reductions with axis= and where= on scaled dimensionless arrays (no identity for object
+    # arrays, hence here): the answer is that of the plain numbers
+    for unit in ("percent", "ppm", "kilometer / meter", "dimensionless"):
+        Aq = Qy(np.array([[50.0, 200.0, 400.0], [200.0, 50.0, 300.0]]), unit)
+        plain = Aq.to("").magnitude
+        for mname, mask in (("equal-counts", np.array([[True, False, True], [False, True, True]])), ("unequal-counts", np.array([[True, False, True], [True, True, False]])), ("all", np.array([[True, True, True], [True, True, True]]))):
+            for axis in (0, 1, None):
+                want = np.prod(plain, axis=axis, where=mask)
+                got = np.prod(Aq, axis=axis, where=mask)
+                gotv = got.to("").magnitude if hasattr(got, "to") else got
+                P(bool(np.allclose(gotv, want, rtol=1e-12, atol=0)), f"prod:axis={axis}:where={mname}:{unit}")
+                gotm = Aq.prod(axis=axis, where=mask)
+                gotmv = gotm.to("").magnitude if hasattr(gotm, "to") else gotm
+                P(bool(np.allclose(gotmv, want, rtol=1e-12, atol=0)), f"method-prod:axis={axis}:where={mname}:{unit}")
+                wants = np.sum(plain, axis=axis, where=mask)
+                gots = np.sum(Aq, axis=axis, where=mask).to("").magnitude
+                P(bool(np.allclose(gots, wants, rtol=1e-12, atol=0)), f"sum:axis={axis}:where={mname}:{unit}")
     try:
         np.sin(z)
     except DimensionalityError:
@@ -447,6 +466,20 @@ def h_inplace(eng, ua, ub):
         eng.prove(True, "setitem-incompatible-raises")
     else:
         eng.fail("setitem-incompatible-accepted")
+    # floor division and modulo in place: the right operand (an array in another unit) is read,
+    # not rewritten; the result is that of the binary operator
+    for nm, iop_, bop in (("imod", operator.imod, operator.mod), ("ifloordiv", operator.ifloordiv, operator.floordiv)):
+        b_nz = b.copy()
+        for v in b_nz:
+            eng.assume(Not(Eq(v, 0)))
+        E = ureg.Quantity(a.copy(), ua)
+        F = ureg.Quantity(b_nz.copy(), ub)
+        want = bop(ureg.Quantity(a.copy(), ua), ureg.Quantity(b_nz.copy(), ub))
+        E = iop_(E, F)
+        for i in range(3):
+            eng.prove(Eq(E.to_root_units().magnitude[i], want.to_root_units().magnitude[i]), f"{nm}-value[{i}]")
+            eng.prove(Eq(F.magnitude[i], b_nz[i]), f"{nm}-other-unchanged[{i}]")
+        eng.prove(str(F.units) == ub, f"{nm}-other-units-unchanged")
     D = ureg.Quantity(a.copy(), ua)
     np.copyto(D, B)
     for i in range(3):
